@@ -195,7 +195,8 @@ func setHandler(args []string) (string, []string) {
 				}
 				body := s[4 : len(s)-1]
 				var toks []string
-				if body != "" {
+				// "Set{}" is both the empty set and the set whose only member is the empty string
+				if body != "" || ref[r]["s"] {
 					// %v of an element: recover the token through the reference universe
 					for _, p := range strings.Split(body, ", ") {
 						tok := "?" + p
